@@ -28,6 +28,7 @@ type HarnessSpec struct {
 	Bounds  map[string]string         `json:"bounds"` // tier -> human-readable bound statement
 	Covers  []string                  `json:"covers"` // reachability witnesses that must be hit (vacuity guard)
 
+	Workers       int  `json:"workers"`
 	NoConcordance bool `json:"no_concordance"` // harness is not meaningful natively (e.g. uses verifExpire)
 }
 
